@@ -419,9 +419,10 @@ pub fn format(source: &str) -> Result<String, Vec<error::Error<'_>>> {
     let errs: ErrorAccumulator = Default::default();
     let l = lexer::Lexer::new(source, errs.clone());
     let func_calls = cst::parse_using_lexer(l, errs.clone());
-    errs.check()?;
     let mut s = String::new();
     cst::pretty_print(&mut s, func_calls).expect("no errors writing to string");
+    // The lexer and the parser are lazy: errors are only known once the tree has been consumed.
+    errs.check()?;
     Ok(s)
 }
 
